@@ -496,6 +496,8 @@ class CallsMixin:
                 return out
             if mod in ("np", "numpy"):
                 raise Unsupported("numpy expression")
+            if mod == "dict" and f.attr == "fromkeys" and len(e.args) == 1:
+                return self.dict_fromkeys(e, st, d)
         # super().__init__(...) / super(C, self).m(...)
         if isinstance(f.value, ast.Call) and isinstance(f.value.func, ast.Name) and f.value.func.id == "super":
             cls = self.fn_stack[-1][1] if self.fn_stack else None
@@ -514,6 +516,39 @@ class CallsMixin:
         for s0, recv in self.ev(f.value, st, d):
             for s1, pos, kw in self.eval_args(e, s0, d):
                 out += self.call_method(recv, f.attr, pos, kw, s1.copy(), d, e)
+        return out
+
+    def dict_fromkeys(self, e, st, d):
+        """dict.fromkeys(xs), used only as an iterable: its keys are the elements of xs without repetition, in first-occurrence order.
+        Modelled as a fresh list of pairwise distinct elements with the same membership as xs (order of first occurrence not modelled)."""
+        out = []
+        self.used_assumptions.add("dict.fromkeys(xs) iterates over the distinct elements of xs (CPython dict semantics)")
+        for s1, xs in self.ev(e.args[0], st, d):
+            s1 = s1.copy()
+            if xs.ty[0] == "opt":
+                xs = self.deref(xs, s1, "fromkeys")
+            if xs.ty[0] != "list" or strip_opt(xs.ty[1])[0] not in ("int", "real", "bool"):
+                raise Unsupported(f"dict.fromkeys over {xs.ty}")
+            ety = xs.ty[1]
+            r = s1.new_list(ety, "distinct_keys")
+            n = z3.Const(fresh_name("n_dk"), z3.IntSort()); nx = s1.length(xs.term, ety)
+            s1.assume(z3.And(n >= 0, n <= nx, (n == 0) == (nx <= 0))); s1.set_len(r.term, n, ety)
+            i, j = z3.Int(fresh_name("i_dk")), z3.Int(fresh_name("j_dk"))
+            el = z3.FreshConst(z3.ArraySort(z3.IntSort(), sort_of(ety)), "dk_el"); xel = s1.elems(xs.term, ety)
+            s1.set_elems(r.term, ety, el)
+            if ety[0] == "opt":
+                nn = z3.FreshConst(z3.ArraySort(z3.IntSort(), z3.BoolSort()), "dk_none"); xnn = s1.elems(xs.term, ety, "none")
+                s1.set_elems(r.term, ety, nn, "none")
+                same = lambda a_, an, b_, bn: z3.And(an == bn, z3.Or(an, a_ == b_))
+                eq_ij = same(z3.Select(el, i), z3.Select(nn, i), z3.Select(el, j), z3.Select(nn, j))
+                eq_ix = same(z3.Select(el, i), z3.Select(nn, i), z3.Select(xel, j), z3.Select(xnn, j))
+            else:
+                eq_ij = z3.Select(el, i) == z3.Select(el, j)
+                eq_ix = z3.Select(el, i) == z3.Select(xel, j)
+            s1.assume(z3.ForAll([i, j], z3.Implies(z3.And(0 <= i, i < j, j < n), z3.Not(eq_ij))))
+            s1.assume(z3.ForAll([i], z3.Implies(z3.And(0 <= i, i < n), z3.Exists([j], z3.And(0 <= j, j < nx, eq_ix)))))
+            s1.assume(z3.ForAll([j], z3.Implies(z3.And(0 <= j, j < nx), z3.Exists([i], z3.And(0 <= i, i < n, eq_ix)))))
+            out.append((s1, r))
         return out
 
     def call_math(self, e, name, st, d):
@@ -675,6 +710,7 @@ class CallsMixin:
         isref = strip_opt(ety)[0] in ("ref",)
         if name == "append":
             n = st.length(r, ety)
+            st.assume(n >= 0)          # a fact about every real list
             st.set_len(r, n + 1, ety)
             v = pos[0]
             if ety[0] == "dyn" and v.ty[0] != "dyn":
